@@ -68,10 +68,29 @@ fn policy_add_respects_contract() {
             if !added && cost <= mc0 && fresh && !map0.keys().any(|k| est(*k) > est_key) {
                 fail("policy_add_respects_contract", "C07:add.reject-only-if-less-popular", &["C07"], "LFUPolicy::add", ctx(&script), "rejected although no resident is more popular".into(), "reject only if strictly less popular than the least popular candidate".into()); return;
             }
-            // occasionally update / remove / change max_cost
-            match rng.below(8) {
+            // occasionally update / remove / change max_cost / clear
+            match rng.below(10) {
                 0 => { let k = rng.below(nkeys); p.remove(&k); script.push(format!("remove({})", k)); }
                 1 => { let k = rng.below(nkeys); let c = 1 + rng.below(4) as i64; p.update(&k, c); script.push(format!("update({}, {})", k, c)); }
+                2 => {
+                    let mc = match rng.below(4) { 0 => 0, 1 => -(rng.below(5) as i64), _ => 1 + rng.below(30) as i64 };
+                    p.update_max_cost(mc);
+                    script.push(format!("update_max_cost({})", mc));
+                    if p.max_cost() != mc {
+                        fail("policy_add_respects_contract", "C01:umc.set", &["C01"], "SampledLFU::update_max_cost", ctx(&script), format!("max_cost() = {}", p.max_cost()), format!("{}", mc)); return;
+                    }
+                }
+                3 => {
+                    { let mut inner = p.inner.lock(); for _ in 0..5 { let k = rng.below(nkeys); inner.admit.increment(k); inner.admit.increment(k); inner.admit.increment(k); } }
+                    p.clear();
+                    script.push("increment x15; clear()".to_string());
+                    let (u, m, _) = snapshot(&p);
+                    if u != 0 || !m.is_empty() {
+                        fail("policy_add_respects_contract", "C11:pol.clear.empty", &["C11", "C01"], "LFUPolicy::clear", ctx(&script), format!("used={} entries={}", u, m.len()), "0 / 0".into()); return;
+                    }
+                    for k in 0..nkeys { let e = p.inner.lock().admit.estimate(k); if e != 0 {
+                        fail("policy_add_respects_contract", "C11:pol.clear.estimator", &["C11", "C13"], "LFUPolicy::clear", ctx(&script), format!("estimate({}) = {} after clear()", k, e), "0".into()); return; } }
+                }
                 _ => {}
             }
             let (u2, m2, _) = snapshot(&p);
